@@ -203,6 +203,22 @@ fn g_formats_random(src: &mut Src, obs: &mut Obs) -> CaseResult {
     check_formats_list(&list, obs)
 }
 
+/// every small algorithm identifier (COSE registry range and around): words [alg + 70000 (raw), shape]
+fn g_alg_sweep(src: &mut Src, obs: &mut Obs) -> CaseResult {
+    let alg = src.word() as i64 - 70_000;
+    let shape = src.below(4);
+    let e = |a: i64, t: &str| Value::Map(vec![ks("alg", Value::int(a)), ks("type", Value::text(t))]);
+    let list = match shape {
+        0 => Value::Array(vec![e(alg, "public-key")]),
+        1 => Value::Array(vec![e(alg, "public-key"), e(-7, "public-key"), e(-8, "public-key")]),
+        2 => Value::Array(vec![e(-8, "public-key"), e(alg, "public-key"), e(-7, "public-key")]),
+        _ => Value::Array(vec![e(alg, "x"), e(alg, "public-key")]),
+    };
+    obs.label("params:alg-sweep");
+    check_params_list(&list, obs)
+}
+pub const G_AS: Gen = Gen { name: "c14_alg_sweep", f: g_alg_sweep };
+
 fn g_params_concrete(src: &mut Src, obs: &mut Obs) -> CaseResult {
     let b = crate::run::unpack_bytes(src);
     obs.label("concrete");
@@ -228,7 +244,7 @@ pub const G_PC: Gen = Gen { name: "c14_params", f: g_params_concrete };
 pub const G_FC: Gen = Gen { name: "c14_formats", f: g_formats_concrete };
 
 pub fn gens() -> Vec<Gen> {
-    vec![G_PS, G_FS, G_PR, G_FR, G_PC, G_FC]
+    vec![G_PS, G_FS, G_PR, G_FR, G_PC, G_FC, G_AS]
 }
 
 pub const RULE: &str = "Exhaustive: all 5 461 lists of length 0..6 over {ES256, EdDSA, unknown algorithm with type public-key, known algorithm with unknown type} and all 1 365 lists of length 0..5 over {packed, none, tpm, other text}. proptest: parameter lists of up to 64 entries (12/13/64 boosted) with alg over the whole i32 range (-7/-8 boosted), type strings of 0..32 bytes (public-key and near misses boosted), entry member order either way; format lists up to 40 entries. Each parameter list is observed stand-alone, as MakeCredential member 4 and as GetInfo member 0x0A (decode side); each format list as MakeCredential member 0x0B and GetAssertion member 9. Oracle: entries.filter(type == public-key and alg in {-7,-8}).take(2) in order; known = entries.filter(in {packed,none}).take(2) in order, unknown flag = any other entry; decoding never fails. Non-trivial: a list with at least one dropped and one kept entry; evaluations count observation paths.";
@@ -242,8 +258,18 @@ pub fn run(ctx: &mut Ctx) {
         ctx.enumerate(&G_FS, (0..(1u32 << (2 * n))).map(move |c| vec![n, c]));
     }
     ctx.exhaustive.push("all lists of length 0..=6 over the 4-symbol parameter alphabet; all lists of length 0..=5 over the 4-symbol format alphabet".into());
-    let _ = idx(0, 1);
+    // every algorithm identifier in -66000..=66000 (all registered COSE algorithms and both
+    // 1/2/3-byte head thresholds on either side) in four list shapes (quick: shape rotates)
+    let quick = ctx.quick();
+    ctx.enumerate(
+        &G_AS,
+        (4_000u32..=136_000).flat_map(move |a| {
+            let shapes: Vec<usize> = if quick && !(69_000..=71_000).contains(&a) { vec![(a % 4) as usize] } else { vec![0, 1, 2, 3] };
+            shapes.into_iter().map(move |sh| vec![a, idx(sh, 4)])
+        }),
+    );
+    ctx.exhaustive.push("every algorithm identifier in -66000..=66000 as a public-key entry, alone and mixed with ES256/EdDSA".into());
     ctx.random(&G_PR, &[], ctx.t(8_000, 400_000), 900);
     ctx.random(&G_FR, &[], ctx.t(4_000, 200_000), 400);
-    ctx.require(&["params:small-alphabet", "formats:small-alphabet", "params:random", "formats:random", "params:len>12", "path:GetInfo.0x0A", "path:GetAssertion.9"]);
+    ctx.require(&["params:small-alphabet", "formats:small-alphabet", "params:random", "formats:random", "params:len>12", "params:alg-sweep", "path:GetInfo.0x0A", "path:GetAssertion.9"]);
 }
